@@ -190,3 +190,41 @@ Proof.
     eexists. eapply iso_map_compose; eauto.
 Qed.
 End Preorder.
+
+(* ------------------------------------------------------------------ corollaries *)
+Section Corollaries.
+Variable vf2b : bool -> (attrs -> attrs -> bool) -> (attrs -> attrs -> bool) -> graph -> graph -> bool.
+Variable enum : (attrs -> attrs -> bool) -> (attrs -> attrs -> bool) -> graph -> graph -> list mapping.
+Hypothesis VB : vf2b_contract vf2b.
+Hypothesis EN : enum_contract enum.
+
+(** get_mappings returns something exactly when the pattern is contained (max_mappings <> 0) *)
+Theorem embeddings_iff gs e hi pi c : cache_inv gs c -> gwf (gnth gs hi) -> gwf (gnth gs pi) -> e_mm e <> Some 0%N ->
+  (fst (get_mappings vf2b enum e hi (gnth gs hi) pi (gnth gs pi) c) <> [] <->
+   contained true (nm_eng e) (em_eng e) (gnth gs hi) (gnth gs pi)).
+Proof.
+  intros Hc WH WP Hmm. destruct (embeddings vf2b enum VB EN gs e hi pi c Hc WH WP) as (Va & Ne). split.
+  - intros Hn. destruct (fst (get_mappings vf2b enum e hi (gnth gs hi) pi (gnth gs pi) c)) as [|m r] eqn:E; [congruence|].
+    destruct (Va m (or_introl eq_refl)) as (_ & _ & He). exists (mfun m). exact He.
+  - intros C. apply Ne; auto.
+Qed.
+
+(** isomorphic never means "is a subgraph of": graphs with different numbers of nodes are not isomorphic for any engine *)
+Theorem iso_unequal_orders gs e i j c : cache_inv gs c -> gwf (gnth gs i) -> gwf (gnth gs j) ->
+  n_nodes (gnth gs i) <> n_nodes (gnth gs j) -> fst (isomorphic vf2b e i (gnth gs i) j (gnth gs j) c) = false.
+Proof.
+  intros Hc Wi Wj Hne. destruct (fst (isomorphic vf2b e i (gnth gs i) j (gnth gs j) c)) eqn:E; [|reflexivity].
+  apply (iso_verdict vf2b VB gs e i j c Hc Wi Wj) in E. destruct E as (f & Hi). exfalso. apply Hne. eapply iso_sizes; eauto.
+Qed.
+End Corollaries.
+
+(** argument guards of the entry points as the model evaluates them: an engine method handed a non-Graph argument raises TypeError
+    before anything else (the cache is not touched); find_graph_isomorphism on two different networkx classes answers None *)
+Theorem argument_guards vf2b enum gs es c :
+  (forall mp e i j, (i = None \/ j = None) -> step vf2b enum gs es (QObj mp e i j) c = (L [tN 99; tN 1], c)) /\
+  (forall t1 t2 i j ud fa a b d, t1 <> t2 -> step vf2b enum gs es (QFgiT t1 t2 i j ud fa a b d) c = (tbool false, c)).
+Proof.
+  split.
+  - intros mp e [i|] [j|] [H|H]; try discriminate; reflexivity.
+  - intros t1 t2 i j ud fa a b d Hne. simpl. replace (N.eqb t1 t2) with false by (symmetry; apply N.eqb_neq; exact Hne). reflexivity.
+Qed.
